@@ -17,7 +17,7 @@ from .. import common, rt, corpus, gen_wide, tel, harvest
 
 PROP = 'C06'
 MODULES = ['Cnl2aspModel.Props.C06']
-THEOREMS = ['C06_value', 'C06_bounds', 'C06_core_safe']
+THEOREMS = ['C06_value', 'C06_bounds', 'C06_core_safe', 'C06_rule_syntax', 'C06_program_syntax']
 
 VAR_RE = re.compile(r'(?<![A-Za-z0-9_"])[A-Z][A-Z0-9_]*(?![A-Za-z0-9_"(])')
 
@@ -452,9 +452,21 @@ def printer_layer(run, rng, tier, texts):
         return
     n_rules = 0
     broken = 0
+    wf = {'compiled': [0, 0], 'random': [0, 0]}
+    outside = {}
     for (origin, req, real, rules), a in zip(cases, answers):
         run.count(('print', real), nontrivial=not origin.startswith('random'))
         n_rules += len(rules)
+        if not req['fn']:
+            # hypothesis of C06_rule_syntax, evaluated by the model on the real rule object (default mode)
+            k = 'random' if origin.startswith('random') else 'compiled'
+            for rule_text, ok in zip(rules, a.get('wf', [])):
+                wf[k][0] += 1
+                wf[k][1] += bool(ok)
+                if not ok and k == 'compiled':
+                    shape = re.sub(r'"[^"]*"', 'S', rule_text)
+                    shape = re.sub(r'[A-Za-z_][A-Za-z0-9_]*', 'n', re.sub(r'\d+', '0', shape)).strip()
+                    outside[shape] = outside.get(shape, 0) + 1
         if a.get('text') == real and a.get('rules') == rules:
             continue
         broken += 1
@@ -470,7 +482,9 @@ def printer_layer(run, rng, tier, texts):
                           f'the real printer emits text the clingo parser rejects: {msg[:200]}',
                           {'origin': origin, 'tree': req, 'program': real, 'message': msg})
     run.coverage['printer_layer'] = {'random_trees': n_rand, 'compiled_trees_both_modes': n_real, 'rules_compared': n_rules,
-                                     'mismatches': broken}
+                                     'mismatches': broken,
+                                     'rules_satisfying_wfRule': {k: f'{v[1]}/{v[0]}' for k, v in wf.items()},
+                                     'compiled_rule_shapes_outside_wfRule': dict(sorted(outside.items(), key=lambda kv: -kv[1])[:12])}
 
 
 def classify(r, msg):
